@@ -160,7 +160,7 @@ GEN = {
                                      "fault_cells": {k: v for k, v in r.cover.items() if k.startswith(("writer-fault:", "reader-fault:", "writer-fault-mid-transfer:", "reader-fault-mid-transfer:"))}, "exhaustive": False, "exhaustive_part": "every device operation index of every generated program and read suite"},
                 assumptions=["errors swallowed in Drop have no return value and are exempt", "a read returning Ok(0) while data exists violates the Read contract and is not injected; write returning Ok(0) is", "a failing device operation itself transfers nothing; partial progress before the failure comes from the preceding short transfers of stage (c)"]),
     "C17": dict(workload="history", extra=[], quick=(40000, 60), thorough=(2000000, 900), both=False,
-                rule="files with 2-4 point clouds (in a third of the files all with the same GUID) and 2-4 blobs (intact / one damaged data page / damaged section header / damaged blob header); random sequences of 5..40 operations {raw iterate k in {0,1,half,all+2} then drop, simple iterate k with 4 option vectors, blob, blob into a failing writer, blob through a self-made descriptor with the same offset and another length, descriptors} on ONE reader over a device that in half the cases delivers short reads and in half the cases returns one transient error; every result is compared with the memoised result of the same operation on a fresh reader; non-trivial = sequence executed; distinct = distinct (sequence, damage class) identities",
+                rule="files with 2-4 point clouds (in a third of the files all with the same GUID) and 2-4 blobs (intact / one damaged data page / damaged section header / damaged blob header / page content altered and re-sealed / checksum stored byte-reversed or complemented); random sequences of 5..40 operations {raw iterate k in {0,1,half,all+2} then drop, simple iterate k with 4 option vectors, blob, blob into a failing writer, blob through a self-made descriptor with the same offset and another length, descriptors} on ONE reader over a device that in half the cases delivers short reads and in half the cases returns one transient error; every result is compared with the memoised result of the same operation on a fresh reader; non-trivial = sequence executed; distinct = distinct (sequence, damage class) identities",
                 distinct=lambda r: len(r.nums.get("sequence_identity", ())), evaluations=lambda r: r.stats.get("sequences", 0),
                 extra_cov=lambda r: {"operations": r.stats.get("operations", 0), "ops_failed": r.stats.get("ops_failed", 0), "ops_equal_after_earlier_failure": r.stats.get("ops_equal_after_earlier_failure", 0), "ops_hit_by_transient_device_error": r.stats.get("ops_with_transient_error", 0), "op_kind_pairs": {k[5:]: v for k, v in r.cover.items() if k.startswith("pair:")}},
                 assumptions=["'earlier operations failed' includes failure by a transient device error", "the operation that itself suffers the injected device error is not compared (C16 requires it to fail)"]),
